@@ -3,7 +3,9 @@
 //!      echo-sim selftest <ID> [--runs N] [--jobs N]
 
 pub mod kernel;
+pub mod model;
 pub mod props;
+pub mod world;
 
 use std::path::PathBuf;
 
@@ -104,6 +106,7 @@ fn main() {
         }
     }
     let code = dispatch!(id.as_str(), mode, &opts, {
+        "C01" => c01::C01,
         "C18" => c18::C18,
     });
     std::process::exit(code);
